@@ -13,6 +13,9 @@ Oracles
   Y6 reactor YAML      YH history clause (a dict phase -> species names shadows every
                        append/extend/remove/pop/clear/new on 1-4 coexisting phase objects and
                        is compared with *every* live phase after each operation)
+  YW line width of a phase directive written with max_line_len=L (C18's clause observed at phase
+     level; only what the writers guarantee: multi-token lines <= L, the line that closes a wrapped
+     value <= L+1, range fields not covered)
 Every violation carries mech = {file, rule, entity, field, class, value_type, units_given, exc,
 ...} so that findings are separated by mechanism.
 """
@@ -36,13 +39,15 @@ NT_RULE = ('case kinds: model (units x 1-4 phases x 2-40 Nasa/Nasa9/Shomate spec
            'seeded PRNG after the directed witnesses.  non-trivial = model with (>=1 BEP or >=1 interaction) '
            'and >=2 phases, or history with >=2 phase objects and >=3 operations, or reactor case with >=3 '
            'options; distinct = distinct canonical JSON of the spec')
-REQUIRED_ORACLES = ['Y1', 'Y2', 'Y3', 'Y4', 'Y5', 'Y6', 'YH']
+REQUIRED_ORACLES = ['Y1', 'Y2', 'Y3', 'Y4', 'Y5', 'Y6', 'YH', 'YW']
 REQUIRED_CLASSES = ['kind:model', 'kind:history', 'kind:reactor',
                     'populate:construct', 'populate:organize', 'populate:incremental', 'populate:moved',
                     'move:add_first', 'move:remove_first', 'move:surface_reactant_computed_A',
                     'move:gas_sticking_species', 'move:by_remove', 'move:by_pop', 'move:by_clear',
                     'hist:move_add_first', 'hist:move_remove_first', 'rxn:bulk_reactant_computed_A',
-                    'wrap:hyphen_name',
+                    'wrap:hyphen_name', 'hist:phase_reactions_Reaction', 'hist:phase_reactions_ChemkinReaction',
+                    'hist:phase_reactions_value_equal_twins', 'bep:twins_unnamed', 'bep:twins_named',
+                    'write:repeated', 'cti:wrapped_note',
                     'species:Nasa', 'species:Nasa9', 'species:Shomate', 'rxn:adsorption', 'rxn:surface',
                     'ts:bep', 'ts:species', 'ts:none', 'ids:user', 'ids:auto', 'interactions:some',
                     'units:none', 'units:dict', 'units:object', 'motz:on', 'motz:off',
@@ -85,6 +90,14 @@ ASSUMPTIONS = [
     'tabulates cal = 1/0.239006 J, 4.4e-7 from 4.184, CODATA-2014 kB/h and NA: observed maximum 1.1e-6; the '
     'nearest realistic wrong constant, the IT calorie, is 6.7e-4 away); CTI rate parameters 2.1e-4 (adds the '
     'printed 6 digits, 5e-6)',
+    'BEP objects are distinct members of the model even when their parameters are equal (one object per '
+    'family member): each must be written once, with its own id and members; reactions handed to IdealGas / '
+    'StoichSolid as base Reaction / ChemkinReaction objects may be legitimate duplicates (equal content, '
+    'different ids) and the phase keeps every id whose species all belong to it',
+    'line width (YW) asserts only what the unchanged writers guarantee: a line with >= 2 tokens is at most '
+    'max_line_len wide, the line closing a wrapped value (""" + template , or )) at most max_line_len+1; '
+    'reactions=/interactions= range fields are written unwrapped and are not covered; notes are compared '
+    'token-wise (a long note is wrapped)',
     'history: list semantics (append/extend at the end, remove = first occurrence, pop(i)); a species may sit '
     'in several phases; remove/pop only address entries present in the model',
     'reactor YAML: option -> key as documented in write_yaml\'s docstring; a number given with `units` must '
@@ -259,6 +272,21 @@ def directed(tier):
                         populate='construct')
         m.update(line_lens=[[80, 60, 100], [45, 72, 120], [79, 81, 50]][k], first='cti', to_file=(k == 1))
         D.append(m)
+    # twin BEPs: distinct objects with identical parameters, anonymous / named, either writer first, re-written
+    for k, (tw, first) in enumerate([('unnamed', 'cti'), ('unnamed', 'yaml'), ('named', 'yaml'), ('named', 'cti')]):
+        m = _base_model(40 + k, first=first, rewrite=True, bep_twins=tw)
+        b0 = dict(m['beps'][0], name=None if tw == 'unnamed' else 'N-N')
+        m['beps'] = [dict(b0), dict(b0, name=None if tw == 'unnamed' else 'N-N-b'),
+                     dict(b0, name=None if tw == 'unnamed' else 'N-N-c')]
+        m['reactions'][2]['ts'] = {'bep': 0}
+        m['reactions'][4]['ts'] = {'bep': 1}
+        m['reactions'][7]['ts'] = {'bep': 2}
+        m['line_lens'] = [60, 80]
+        for p_, note in zip(m['phases'], ['feed gas of the reactor after drying over molecular sieve 4A',
+                                          'Pt metal', 'Pt(111) terrace sites only DFT PBE-D3 slab four layers '
+                                          'p(3x3) cell see ref. 12 and SI', 'stepped surface of the catalyst']):
+            p_['note'] = note
+        D.append(m)
     # single-phase models
     rng = random.Random('C07-directed-single')
     D.append(G.gen_model(rng, tier, layout='g', n_species=3, populate='construct', yaml_keyword_name=False))
@@ -284,6 +312,15 @@ def directed(tier):
     D.append(H([I(0, [0, 1]), I(1, [2]), I(2, [])], 3, [['append', 2, 3], ['extend', 1, [0, 4]],
                                                        ['remove', 0, 1], ['pop', 1, 2], ['clear', 0]]))
     D.append(H([I(0, [0])], 1, [['append', 0, 1], ['extend', 0, [2, 3]], ['pop', 0, 0], ['remove', 0, 3]]))
+    # homogeneous reactions given to IdealGas / StoichSolid as base Reaction / ChemkinReaction objects with ids:
+    # value-equal twins with different ids, gaps, a reaction with a foreign species
+    for k, cls in enumerate(['Reaction', 'ChemkinReaction']):
+        rx = lambda i, eq, foreign=False: {'cls': cls, 'id': i, 'eq': eq, 'foreign': foreign}
+        D.append({'kind': 'history', 'flavour': 'plain', 'pool': 5, 'names': None,
+                  'phases': [dict(Gs(0, [0, 1]), rxns=[rx('g0_0003', 0), rx('g0_0001', 0), rx('g0_0002', 1),
+                                                       rx('g0_0007', 0), rx('g0_0005', 2, True), rx('g0_0009', 1)]),
+                             dict(B(1, [2]), rxns=[rx('g1_0001', 0), rx('g1_0002', 0)]), I(2)],
+                  'n_start': 3, 'ops': [['append', 2, 3], ['append', 0, 4]], 'moves': {}, 'units': U, 'emit': True})
     # long species lists with hyphenated names: the special names at every position of a wrapped list
     fill = G.WRAP_FILLERS[:18]
     special = ['cis-HCOOH(S)', 'trans-HCOOH(S)', 'CO-OH(S)']
@@ -587,6 +624,7 @@ def _run_history(spec, ctx):
     elements_of = {o.name: dict(o.elements) for o in pool}
     obj_of = lambda i: pool[i]
     live, model = {}, {}
+    rxn_ids = {}
     info = {'_objs': {o.name: o for o in pool}, '_owner': {}}
     for how, n in (spec.get('moves') or {}).items():
         if n:
@@ -610,9 +648,21 @@ def _run_history(spec, ctx):
             ctx.cls('hist:default_args')
         mech = {'file': 'history', 'rule': 'Y4', 'entity': 'phase', 'field': 'species', 'class': p['type'],
                 'after': 'new', 'default_args': p['init'] is None, 'other_phase': False}
+        if p.get('rxns'):
+            kw['reactions'], want_ids = _phase_reactions(p)
+            rxn_ids[k] = (want_ids, p['rxns'][0]['cls'],
+                          len({(r['eq'], r['foreign']) for r in p['rxns']}) < len(p['rxns']))
         ph = ctx.call('YH', mech, cls, **kw)
         if ph is core.NOVALUE:
             return False
+        if p.get('rxns'):
+            ctx.cls('hist:phase_reactions_' + p['rxns'][0]['cls'])
+            if rxn_ids[k][2]:
+                ctx.cls('hist:phase_reactions_value_equal_twins')
+            got = sorted(str(getattr(r, 'id', None)) for r in (ph.reactions or []))
+            ctx.check('YH', got == rxn_ids[k][0],
+                      dict(mech, field='reactions', reaction_class=rxn_ids[k][1], value_equal_twins=rxn_ids[k][2]),
+                      got=got, want=rxn_ids[k][0])
         live[k] = ph
         model[k] = [pool[i].name for i in (p['init'] or [])]
         info[k] = {'default': p['init'] is None}
@@ -637,10 +687,32 @@ def _run_history(spec, ctx):
         if not _check_live(ctx, live, model, elements_of, op[0], op[1], info):
             return
     if spec.get('emit'):
-        _emit_phases_only(spec, ctx, live, model, elements_of)
+        _emit_phases_only(spec, ctx, live, model, elements_of, rxn_ids)
 
 
-def _emit_phases_only(spec, ctx, live, model, elements_of):
+def _phase_reactions(p):
+    """base Reaction / ChemkinReaction objects with an ad-hoc id, on species that belong to phase p (by
+    name, as the phase constructors expect) -> (objects, sorted ids the phase must keep)"""
+    import pmutt.reaction as R
+    rng = random.Random('C07-phase-rxn')
+    mk = lambda nm, phase: G.build_species(G.gen_species_spec(rng, nm, 'Nasa', phase, {'H': 1}, None))
+    own = [mk('q%d' % i, p['name']) for i in range(5)]
+    alien = mk('alien', 'elsewhere')
+    eqs = [([0], [1]), ([0, 1], [2]), ([2], [3, 4]), ([1], [4])]
+    out, keep = [], []
+    for r in p['rxns']:
+        a, b = eqs[r['eq']]
+        reac = [own[i] for i in a] + ([alien] if r['foreign'] else [])
+        obj = getattr(R, r['cls'])(reactants=reac, reactants_stoich=[1] * len(reac),
+                                   products=[own[i] for i in b], products_stoich=[1] * len(b))
+        obj.id = r['id']
+        out.append(obj)
+        if not r['foreign']:
+            keep.append(r['id'])
+    return out, sorted(keep)
+
+
+def _emit_phases_only(spec, ctx, live, model, elements_of, rxn_ids=None):
     """after the history: what the real writers say about the phases (Y4 on files)."""
     from pmutt.io.omkm import write_cti, write_thermo_yaml
     import yaml
@@ -669,6 +741,14 @@ def _emit_phases_only(spec, ctx, live, model, elements_of):
             if len(' '.join(model[k])) >= 60 and any('-' in n for n in model[k]):
                 ctx.cls('wrap:hyphen_name')
                 m['wrapped_hyphen_names'] = True
+            if rxn_ids and k in rxn_ids and ph['kind'] == 'ideal_gas':
+                want, rcls, tw = rxn_ids[k]
+                mr = dict(m, field='reactions', reaction_class=rcls, value_equal_twins=tw)
+                try:
+                    got = sorted(C.expand_ids([e for e in ph.get('reactions', []) if e != 'none']))
+                    ctx.check('Y4', got == want, mr, got=got, want=want, written=ph.get('reactions'))
+                except C.CTIInvalid as e:
+                    ctx.fail('Y4', dict(mr, exc='CTIInvalid'), message=str(e)[:200])
             ctx.check('Y4', ph['species'] == model[k], dict(m, field='species'), got=ph['species'], want=model[k])
             want_el = set()
             for n in model[k]:
@@ -1038,6 +1118,40 @@ def _do_cti(spec, M, ctx):
     _cti_line_lengths(spec, M, ctx, written_ids, int_ids, bep_ids)
 
 
+def _phase_line_widths(ctx, text, L, cls):
+    """What the writers guarantee about the width of a phase directive written with max_line_len=L
+    (C18's clause observed at phase level): a line that carries two or more tokens of a wrapped value is
+    at most L wide, except that the line closing a wrapped value (\"\"\" followed by the template's ',' or
+    ')') may be L+1.  Range fields (reactions=, interactions=) are written unwrapped and are not covered;
+    a line with a single token may be as long as that token."""
+    import re
+    in_range_field = False
+    for line in text.split('\n'):
+        body = line.strip()
+        if re.match(r'^(reactions|interactions)=', body):
+            in_range_field = not re.search(r'\][,)]$', body)
+            continue
+        if in_range_field:
+            in_range_field = not re.search(r'\][,)]$', body)
+            continue
+        if len(line) <= L:
+            ctx.held('YW')
+            continue
+        toks = re.sub(r'^\w+\(', '', body)
+        toks = re.sub(r'^\w+=', '', toks).replace('"""', ' ')
+        toks = re.sub(r'[,)]$', '', toks).split()
+        closing = re.search(r'"""[,)]$', body) is not None
+        if len(toks) <= 1:
+            ctx.held('YW')
+            continue
+        if closing and len(line) == L + 1:
+            ctx.held('YW')
+            ctx.branch('width:closing_quotes_plus_template_char=L+1')
+            continue
+        ctx.fail('YW', {'file': 'cti', 'rule': 'Y1', 'entity': 'phase', 'class': cls, 'field': 'line_width',
+                        'closing_line': closing, 'excess': min(len(line) - L, 3)}, line=line, L=L, width=len(line))
+
+
 def _cti_line_lengths(spec, M, ctx, written_ids, int_ids, bep_ids):
     """the phase directives at other max_line_len values: still valid directives that say the same"""
     from pmutt import _force_pass_arguments
@@ -1056,6 +1170,8 @@ def _cti_line_lengths(spec, M, ctx, written_ids, int_ids, bep_ids):
                 ok = False
         if not ok:
             continue
+        for p, text in zip(spec['phases'], parts):
+            _phase_line_widths(ctx, text, L, p['type'])
         try:
             doc = C.evaluate('\n'.join(parts))
             ctx.held('Y1')
@@ -1234,6 +1350,8 @@ def _cti_interactions(spec, ctx, doc):
 
 def _cti_beps(spec, ctx, doc, written_ids):
     base = {'file': 'cti', 'rule': 'Y5', 'entity': 'bep'}
+    if spec.get('bep_twins'):
+        base.update(bep_twins=spec['bep_twins'], first_writer=_P.get('first_writer', spec['first']))
     n = len(spec['beps'])
     if not ctx.check('Y5', len(doc.beps) == n, dict(base, field='each_once'), got=len(doc.beps), want=n):
         return None
@@ -1292,7 +1410,10 @@ def _cti_phases(spec, ctx, doc, written_ids, int_ids, bep_ids, extra=None):
         ctx.check('Y4', set(w['elements']) == ex['elements'] and len(w['elements']) == len(ex['elements']),
                   dict(m, field='elements'), got=w['elements'], want=sorted(ex['elements']))
         if p.get('note') is not None:
-            ctx.check('Y4', w.get('note') == p['note'], dict(m, field='note'), got=w.get('note'), want=p['note'])
+            ctx.check('Y4', isinstance(w.get('note'), str) and w['note'].split() == p['note'].split(),
+                      dict(m, field='note'), got=w.get('note'), want=p['note'])
+            if isinstance(w.get('note'), str) and '\n' in w['note']:
+                ctx.cls('cti:wrapped_note')
         if p['type'] == 'StoichSolid':
             if ctx.check('Y4', 'density' in w, dict(m, field='density', what='missing')):
                 _rel(ctx, 'Y4', w['density'], C.mass_density(p['density'], u['mass'], u['length']), TOL_CONV,
@@ -1318,8 +1439,10 @@ def _cti_phases(spec, ctx, doc, written_ids, int_ids, bep_ids, extra=None):
                 ctx.cls('cti:long_range_list')
             ctx.check('Y4', got == want, dict(m, field=fld), got=got, want=want, written=w.get(fld))
         if p['type'] == 'InteractingInterface' and ex['beps'] is not None:
-            ctx.check('Y4', sorted(w.get('beps', [])) == ex['beps'], dict(m, field='beps'), got=w.get('beps'),
-                      want=ex['beps'])
+            mb = dict(m, field='beps')
+            if spec.get('bep_twins'):
+                mb.update(bep_twins=spec['bep_twins'], first_writer=_P.get('first_writer', spec['first']))
+            ctx.check('Y4', sorted(w.get('beps', [])) == ex['beps'], mb, got=w.get('beps'), want=ex['beps'])
 
 
 # ====================================================================== YAML loading
@@ -1587,6 +1710,8 @@ def _yaml_interactions(spec, ctx, yi):
 
 def _yaml_beps(spec, ctx, yb, written_ids):
     base = {'file': 'thermo_yaml', 'rule': 'Y5', 'entity': 'bep'}
+    if spec.get('bep_twins'):
+        base.update(bep_twins=spec['bep_twins'], first_writer=_P.get('first_writer', spec['first']))
     n = len(spec['beps'])
     if not ctx.check('Y5', isinstance(yb, list) and len(yb) == n, dict(base, field='each_once'),
                      got=len(yb) if isinstance(yb, list) else repr(yb)[:60], want=n):
@@ -1961,6 +2086,8 @@ def _classes(spec, ctx):
             ctx.cls('rate:beta<0')
         if r['sticking_coeff'] is not None and r['sticking_coeff'] in (0.0, 1.0):
             ctx.cls('rate:sticking=%d' % r['sticking_coeff'])
+    if spec.get('bep_twins'):
+        ctx.cls('bep:twins_' + spec['bep_twins'])
     if (spec['beps'] or spec['interactions']) and len(spec['phases']) >= 2:
         ctx.nontrivial()
 
@@ -1972,14 +2099,22 @@ def _run_model(spec, ctx):
         return
     order = [spec['first'], 'yaml' if spec['first'] == 'cti' else 'cti']
     failed = False
+    _P['first_writer'] = order[0]            # the writer that sees the objects before any id / name is assigned
     for k, which in enumerate(order):
         if k == 1 and (spec['fresh_second'] or failed):
+            _P['first_writer'] = which
             # (a writer that raised leaves half-assigned ids behind: start again from fresh objects)
             M = _build(spec, ctx)
             if M is None:
                 return
         r = _do_cti(spec, M, ctx) if which == 'cti' else _do_yaml(spec, M, ctx)
         failed = r is False
+    if spec.get('rewrite') and not failed:
+        # the same objects written once more (ids and names assigned by the earlier writes are kept)
+        ctx.cls('write:repeated')
+        for which in order:
+            if (_do_cti(spec, M, ctx) if which == 'cti' else _do_yaml(spec, M, ctx)) is False:
+                break
 
 
 def _fresh_process_state():
